@@ -825,6 +825,64 @@ func c18Spell(t time.Time, kind, offMin int) string {
 	return t.In(loc).Format(time.RFC3339Nano)
 }
 
+// c18SpellR renders an instant in a random accepted spelling: half of the
+// time one of c18Spell's five kinds, otherwise a free RFC 3339 spelling in
+// which every choice the format leaves open is made at random:
+//   - the offset: any of c18Offsets; a zero offset written Z, +00:00 or
+//     (rarely) -00:00, RFC 3339's "unknown local offset", which is UTC time;
+//   - the fraction: any number of digits from the fewest that express the
+//     nanoseconds exactly (none for a whole second) up to nine, i.e. with
+//     zero, some or all trailing zeros written (.5 .50 .500 .500000000; .0 .000).
+//
+// The unpunctuated format has exactly one spelling per whole-second instant.
+// All of these are accepted by time.Parse(time.RFC3339Nano) (probed; more than
+// nine digits and a comma separator are accepted too but not generated).
+func c18SpellR(r *kit.Rand, t time.Time) string {
+	if r.Bool() {
+		return c18Spell(t, r.Intn(5), kit.Pick(r, c18Offsets))
+	}
+	t = t.UTC()
+	if t.Nanosecond() == 0 && r.Chance(0.15) {
+		return t.Format("20060102T150405")
+	}
+	offMin := kit.Pick(r, c18Offsets)
+	lt := t.In(time.FixedZone("", offMin*60))
+	out := lt.Format("2006-01-02T15:04:05")
+	frac := fmt.Sprintf("%09d", t.Nanosecond())
+	d0 := len(strings.TrimRight(frac, "0"))
+	d := d0
+	switch r.Intn(5) {
+	case 0:
+		d = 9
+	case 1, 2:
+		d = d0 + r.Intn(9-d0+1)
+	case 3:
+		for _, k := range []int{3, 6} {
+			if k >= d0 && r.Bool() {
+				d = k
+				break
+			}
+		}
+	}
+	if d > 0 {
+		out += "." + frac[:d]
+	}
+	if offMin == 0 {
+		switch r.Intn(10) {
+		case 0, 1, 2:
+			return out + "Z"
+		case 3:
+			return out + "-00:00"
+		}
+		return out + "+00:00"
+	}
+	sign, m := "+", offMin
+	if m < 0 {
+		sign, m = "-", -m
+	}
+	return out + fmt.Sprintf("%s%02d:%02d", sign, m/60, m%60)
+}
+
 // c18Instants returns n distinct instants around a base, close enough that
 // different offsets reorder their spellings.
 func c18Instants(r *kit.Rand, n int) []time.Time {
@@ -933,7 +991,7 @@ func c18GenBuilderP(r *kit.Rand, i int, noBase float64) c18Case {
 	}
 	var exps []experiment
 	for k := 0; k < nexp; k++ {
-		e := experiment{raw: c18Spell(eInst[k], r.Intn(5), kit.Pick(r, c18Offsets)), group: r.Intn(ngroups)}
+		e := experiment{raw: c18SpellR(r, eInst[k]), group: r.Intn(ngroups)}
 		for si, s := range sers {
 			if s.group == e.group && r.Chance(0.7) {
 				e.series = append(e.series, si)
@@ -959,7 +1017,7 @@ func c18GenBuilderP(r *kit.Rand, i int, noBase float64) c18Case {
 		if si >= 0 {
 			x.NHash = sers[si].nhash
 			// a hash may spell its stamp differently from result to result
-			x.Stamp = c18Spell(sers[si].t, r.Intn(5), kit.Pick(r, c18Offsets))
+			x.Stamp = c18SpellR(r, sers[si].t)
 		}
 		for _, u := range us {
 			x.Vals = append(x.Vals, c18Val{V: kit.F(c18Value(r, bases[b+"|"+u])), U: u})
@@ -1144,6 +1202,7 @@ func c18GenBoot(r *kit.Rand, i int) c18BootCase {
 type c18DateCase struct {
 	S1, S2 kit.B // two spellings of instant 1
 	S3     kit.B // a spelling of instant 2
+	More   []kit.B `json:",omitempty"` // further spellings of instant 1
 	T1s    int64 // instant 1: seconds and nanoseconds since the Unix epoch
 	T1n    int
 	T2s    int64
@@ -1160,6 +1219,23 @@ func c18CheckDate(c c18DateCase) *kit.Fail {
 	if n1 != n2 {
 		return kit.Failf("date-same-instant-differs", "%q and %q denote the same instant but normalise to %q and %q", c.S1, c.S2, n1, n2)
 	}
+	for _, m := range c.More {
+		nm, em := benchseries.NormalizeDateString(string(m))
+		if em != nil {
+			return kit.Failf("date-rejected", "accepted-format timestamp rejected: %q:%v", m, em)
+		}
+		if nm != n1 {
+			return kit.Failf("date-same-instant-differs", "%q and %q denote the same instant but normalise to %q and %q", c.S1, m, n1, nm)
+		}
+	}
+	for _, m := range append([]kit.B{c.S1, c.S2}, c.More...) {
+		if c18PaddedFraction(string(m)) {
+			kit.Count("C18 spellings of instant 1 whose fraction has trailing zeros", 1)
+			if strings.HasSuffix(string(m), "+00:00") {
+				kit.Count("C18 spellings of instant 1 with trailing fraction zeros and offset +00:00", 1)
+			}
+		}
+	}
 	t1 := time.Unix(c.T1s, int64(c.T1n))
 	t2 := time.Unix(c.T2s, int64(c.T2n))
 	switch {
@@ -1174,6 +1250,19 @@ func c18CheckDate(c c18DateCase) *kit.Fail {
 		kit.Count("C18 date pairs spelled in both formats", 1)
 	}
 	return nil
+}
+
+// c18PaddedFraction: an RFC 3339 spelling whose fractional second ends in 0.
+func c18PaddedFraction(s string) bool {
+	dot := strings.IndexByte(s, '.')
+	if dot < 0 {
+		return false
+	}
+	end := dot + 1
+	for end < len(s) && s[end] >= '0' && s[end] <= '9' {
+		end++
+	}
+	return end > dot+1 && s[end-1] == '0'
 }
 
 func c18GenDate(r *kit.Rand, i int) c18DateCase {
@@ -1226,12 +1315,18 @@ func c18GenDate(r *kit.Rand, i int) c18DateCase {
 		k1 = 0 // the unpunctuated spelling against an RFC 3339 one
 		k2 = 1 + r.Intn(4)
 	}
-	return c18DateCase{
+	c := c18DateCase{
 		S1:  kit.B(c18Spell(t1, k1, kit.Pick(r, c18Offsets))),
 		S2:  kit.B(c18Spell(t1, k2, kit.Pick(r, c18Offsets))),
-		S3:  kit.B(c18Spell(t2, r.Intn(5), kit.Pick(r, c18Offsets))),
+		S3:  kit.B(c18SpellR(r, t2)),
 		T1s: t1.Unix(), T1n: t1.Nanosecond(), T2s: t2.Unix(), T2n: t2.Nanosecond(),
 	}
+	// several spellings within each accepted format: offset Z / +00:00 /
+	// other zones, fraction trimmed / padded with trailing zeros / absent
+	for k := r.Range(1, 4); k > 0; k-- {
+		c.More = append(c.More, kit.B(c18SpellR(r, t1)))
+	}
+	return c
 }
 
 func TestVerifC18(t *testing.T) {
@@ -1256,8 +1351,18 @@ func TestVerifC18(t *testing.T) {
 		kit.Class[c18DateCase]{
 			Name: "dates", Quick: 60000, Thorough: 3000000,
 			Gen: c18GenDate, Check: c18CheckDate, MinNonTrivial: 20000,
-			NonTrivial: func(c c18DateCase) bool { return c.S1 != c.S2 },
-			Rule: "instants (years 1-9998, whole seconds or fractions down to 1 ns) spelled as 20060102T150405 or RFC 3339 with Z / numeric offsets (-12:00..+14:00, half and quarter hours, one minute) / fixed or trimmed fraction digits; a second instant equal, 1 ns to years away. Non-trivial = the two spellings of the first instant differ",
+			NonTrivial: func(c c18DateCase) bool {
+				if c.S1 == c.S2 {
+					return false
+				}
+				for _, m := range c.More {
+					if m != c.S1 && m != c.S2 {
+						return true
+					}
+				}
+				return false
+			},
+			Rule: "instants (years 1-9998, whole seconds or fractions down to 1 ns) in 3-6 spellings: 20060102T150405 or RFC 3339 with the offset written Z / +00:00 / -00:00 / numeric (-12:00..+14:00, half and quarter hours, one minute) and the fraction written with any number of digits from the fewest exact ones (none for whole seconds) to nine, i.e. trimmed, padded with trailing zeros or absent; all spellings must normalise identically; a second instant equal, 1 ns to years away, must normalise to a string ordered like the instants. Non-trivial = at least three different spellings of the first instant",
 		},
 	)
 }
